@@ -318,7 +318,7 @@ def bulkElems (renv : REnv) (vis : SeqVisitor) (t : RTy) (fl : Flags) (p : Prim)
 def nVecCase (env : Env) (renv : REnv) (fuel : Nat) (rec : RTy → Flags → Ty → Ty → St → NR) (vis : SeqVisitor)
     (t : RTy) (fl : Flags) (ww ee : Ty) (s1 : St) : R (List Val × Flags) :=
   match env.trace fuel ww with
-  | none => .err .other
+  | none => .err .limit
   | some wire =>
     (rd readLenDe s1).bind fun n s2 =>
       match exactPrim ee wire with
@@ -345,9 +345,10 @@ def tupleLoop (rec : RTy → Flags → Ty → Ty → St → NR) :
       if es.isEmpty ∧ ws.isEmpty then .err .other
       else
         let e : Ty := match es with | (_, et) :: _ => et | [] => .prim .reserved
+        let l : Label := match es with | (l, _) :: _ => l | [] => .id i
         let w : Ty := match ws with | (_, wt) :: _ => wt | [] => .prim .null
         (rec t fl w e s1).bind fun (v, fl1) s2 =>
-          (tupleLoop rec ts es.tail ws.tail (i + 1) fl1 s2).map fun (vs, rest, fl2) => ((.id i, v) :: vs, rest, fl2)
+          (tupleLoop rec ts es.tail ws.tail (i + 1) fl1 s2).map fun (vs, rest, fl2) => ((l, v) :: vs, rest, fl2)
 
 /-- `skip_remaining_wire_fields` -/
 def skipFields (mk : String → NR) (ign : Ty → St → R Val) : List (Label × Ty) → Flags → St → R Flags
@@ -385,7 +386,7 @@ def structLoop (mk : String → NR) (env : Env) (fuel : Nat) (rec : RTy → Flag
       | .both l et wt => next (value l wt et s1)
       | .expectOnly l et =>
         (match env.trace fuel et with
-         | none => .err .other
+         | none => .err .limit
          | some et' => if !(Sub.isOptLikeTy et') then subErr s1 else next (value l (.prim .null) et' s1))
       | .expectTail l et => next (value l (.prim .null) et s1)
       | .wireOnly wt =>
@@ -404,7 +405,7 @@ def skipTys (mk : String → NR) (ign : Ty → St → R Val) : List Ty → Flags
   | t :: ts, f, s => (addCost s 3).bind fun _ s' => (ignF mk ign f t s').bind fun (_, f') s'' => skipTys mk ign ts f' s''
 
 /-- `Compound` in `Style::Map`: entries of a map -/
-def mapLoop (mk : String → NR) (rec : RTy → Flags → Ty → Ty → St → NR) (ign : Ty → St → R Val) (k v : RTy)
+def mapLoop (mk : String → NR) (rec : RTy → Flags → Ty → Ty → St → NR) (ign : Ty → St → R Val) (k v : RTy) (l0 l1 : Label)
     (ek ev wk wv : Ty) (extra : List Ty) (keyFast : Bool) (valFast : Option Big) :
     Nat → St → R (List Val)
   | 0, st => (addCost st 4).map fun _ => []
@@ -416,8 +417,8 @@ def mapLoop (mk : String → NR) (rec : RTy → Flags → Ty → Ty → St → N
           (if anyFast then R.ok () s3 else addCost s3 3).bind fun _ s4 =>
             (rec v ⟨valFast, false⟩ wv ev s4).bind fun (vv, fl2) s5 =>
               (skipTys mk ign extra { fl2 with big := none } s5).bind fun _ s6 =>
-                (mapLoop mk rec ign k v ek ev wk wv extra keyFast valFast n s6).map fun es =>
-                  .record [(.id 0, kv), (.id 1, vv)] :: es
+                (mapLoop mk rec ign k v l0 l1 ek ev wk wv extra keyFast valFast n s6).map fun es =>
+                  .record [(l0, kv), (l1, vv)] :: es
 
 /-- `deserialize_map`: `guard`, `unroll`, `add_cost(1)` by the caller -/
 def nMapCase (mk : String → NR) (env : Env) (fuel : Nat) (rec : RTy → Flags → Ty → Ty → St → NR) (ign : Ty → St → R Val) (k v : RTy)
@@ -445,11 +446,11 @@ def nMapCase (mk : String → NR) (env : Env) (fuel : Nat) (rec : RTy → Flags 
               let valFast := bigOf ev wv
               let anyFast := keyFast || valFast.isSome
               (if anyFast then (if n * 7 > usizeMax then R.err .other else addCost s2 (n * 7)) else R.ok () s2).bind fun _ s3 =>
-                (mapLoop mk rec ign k v ek ev wk wv extra keyFast valFast n s3).map fun es => (.vec es, Flags.clear)
+                (mapLoop mk rec ign k v l0 l1 ek ev wk wv extra keyFast valFast n s3).map fun es => (.vec es, Flags.clear)
           else emptyMap s1
         | _ => emptyMap s1)
      | _, _ => emptyMap s1)
-  | _, _ => .err .other
+  | _, _ => .err .limit
 
 /-- `deserialize_enum` -/
 def nEnumCase (rec : RTy → Flags → Ty → Ty → St → NR)
@@ -475,12 +476,12 @@ def nEnumCase (rec : RTy → Flags → Ty → Ty → St → NR)
               match sel with
               | none => .err .other
               | some (.unit, _) =>
-                if et = .prim .null ∧ wt = .prim .null then (addCost s4 1).map fun _ => (.variant el .null 0, Flags.clear)
+                if et = .prim .null ∧ wt = .prim .null then (addCost s4 1).map fun _ => (.variant el .null idx, Flags.clear)
                 else subErr s4
               | some (_, t) =>
                 -- newtype_variant_seed / tuple_variant / struct_variant: add_cost(1), then the payload's own entry
                 (addCost s4 1).bind fun _ s5 =>
-                  (rec t fl wt et s5).map fun (v, _) => (.variant el v 0, Flags.clear)
+                  (rec t fl wt et s5).map fun (v, _) => (.variant el v idx, Flags.clear)
   | _ => subErr s1
 
 /-- `recoverable_visit_some` with `OptionVisitor<T>` -/
@@ -510,7 +511,7 @@ def nOptCase (mk : String → NR) (env : Env) (fuel : Nat) (rec : RTy → Flags 
             else .err .malformed)
        | _ =>
          (match env.trace fuel e2 with
-          | none => .err .other
+          | none => .err .limit
           | some e2' => nRecoverable mk rec ign t fl w e2' s1))
     | _ => subErr s1
 
